@@ -278,6 +278,9 @@ func doParsing(mp *msgParser) (err error) {
 		mp.fieldIndex++
 	}
 
+	// Fields were allocated per SOH byte; data fields may contain SOH, so drop the slots that were not used.
+	mp.msg.fields = mp.msg.fields[:mp.fieldIndex+1]
+
 	// This will happen if there are no fields in the body
 	if mp.foundTrailer && !mp.foundBody {
 		mp.trailerBytes = mp.rawBytes
